@@ -7,7 +7,9 @@ DUT: luna.gateware.interface.i2c.I2CInitiator (with its I2CBusDriver) inside a s
 Workload: 10..22 operations per case: realistic transfers (start, address write, data writes / repeated
      start, reads with ack, last read with nak, stop) mixed with arbitrary operation sequences (read or write
      without start, stop on an idle bus, start after start, ...).  A strobe is given 0..2q cycles after
-     `busy` is seen low; data_i / ack_i are valid only in the strobe cycle and scrambled afterwards; further
+     `busy` is seen low, or (30 % of the operations) by a combinational user `strobe = want & ~busy` placed in the
+     wrapper, i.e. in the very first cycle busy is low; data_i / ack_i are valid only in the strobe cycle and
+     scrambled afterwards; further
      strobes (any combination) are fired while the operation is running (they must be ignored).
      An I2C target model written for this check follows the bus from the resolved lines only: it counts SCL
      edges, ACKs/NAKs written bytes, presents read data MSB first (with the complement/garbage on SDA during
@@ -34,7 +36,7 @@ Oracle (I2C-bus specification UM10204, from the resolved lines and the initiator
 
 Not judged: SDA changes in the very cycle SCL falls (hold time 0 is legal in I2C), exact SCL frequency,
 simultaneous strobes with busy low (priority is not part of the statement), a strobe in the last busy cycle
-(the block's FSM is already idle there; the statement only constrains busy = 0), target stretching with
+(the block's FSM is already idle there; the statement only constrains busy = 0), ack_o/data_o while busy, target stretching with
 clk_stretch=False (documented as unsupported), multi-master arbitration, I2CRegisterInterface.
 """
 from rv.sim import Bench
@@ -49,7 +51,8 @@ REQUIRED_BINS = ["op_start", "op_stop", "op_write", "op_read", "repeated_start",
                  "stop_on_idle_bus", "write_acked", "write_nacked", "read_ack", "read_nak", "stretch_1_3", "stretch_quarter",
                  "stretch_long", "stretch_in_data_bit", "stretch_in_ack_bit", "stretch_in_start_or_stop", "late_target_data",
                  "spurious_strobe_while_busy", "gap_0", "clk_stretch_off", "pushpull_scl", "period_8", "period_ge_32",
-                 "write_without_start", "data_scrambled_after_strobe", "read_data_msb_lsb_differ", "write_data_msb_lsb_differ"]
+                 "write_without_start", "data_scrambled_after_strobe", "strobe_first_cycle_busy_low", "zero_gap_write_after_start",
+                 "zero_gap_start_after_write", "zero_gap_start_after_stop", "zero_gap_stop_after_start", "zero_gap_read_after_read", "zero_gap_start_after_start", "read_data_msb_lsb_differ", "write_data_msb_lsb_differ"]
 REQUIRED_EVENTS = ["ops_accepted", "ops_completed", "scl_rising_edges", "write_bits_checked", "read_bits_checked",
                    "ack_o_checked", "data_o_checked", "start_conditions", "stop_conditions", "high_phases_checked",
                    "idle_cycles_checked", "sda_high_cycles_checked"]
@@ -89,11 +92,18 @@ def run_case(rng, tier, res):
             self.sda = Signal()
             self.m_scl = Signal()
             self.m_sda = Signal()
+            # user side: s_* = one-cycle strobes from the test driver, w_* = "want" levels of a user that reacts
+            # combinationally to busy (strobe = want & ~busy), which a clocked test driver cannot do itself
+            self.s = [Signal(name="s_%s" % n) for n in ("start", "stop", "write", "read")]
+            self.w = [Signal(name="w_%s" % n) for n in ("start", "stop", "write", "read")]
 
         def elaborate(self, platform):
             m = Module()
             m.submodules.dut = self.dut
             p = self.pads
+            d = self.dut
+            for i_, port in enumerate([d.start, d.stop, d.write, d.read]):
+                m.d.comb += port.eq(self.s[i_] | (self.w[i_] & ~d.busy))
             if pushpull:
                 m.d.comb += [self.m_scl.eq(p.scl.o), self.scl.eq(self.m_scl)]
             else:
@@ -133,7 +143,7 @@ def run_case(rng, tier, res):
         op = {"kind": kind, "gap": rng.choice([0, 0, 0, 1, 2, rng.randint(0, 2 * q + 2)]),
               "stretch": [stretch_len() for _ in range(11)],
               "delay": [rng.random() for _ in range(11)], "garbage": [rng.choice(["none", "compl", "rand"]) for _ in range(11)],
-              "spurious": rng.random() < 0.5, "spur_at": rng.randint(1, 7), "scramble": rng.random() < 0.7}
+              "spurious": rng.random() < 0.5, "comb": rng.random() < 0.3, "spur_at": rng.randint(1, 7), "scramble": rng.random() < 0.7}
         if kind == "write":
             op["data"] = byte()
             op["tack"] = rng.random() < 0.7          # target acknowledges
@@ -173,7 +183,8 @@ def run_case(rng, tier, res):
     total_stretch = sum(sum(o["stretch"]) for o in ops)
     b = Bench(h, domain="sync", freq=60e6, max_cycles=len(ops) * 14 * (period + 10) + 2 * total_stretch + 2000)
     strobes = [dut.start, dut.stop, dut.write, dut.read]
-    b.watch(h.scl, h.sda, h.m_scl, h.m_sda, h.tgt_scl, h.tgt_sda, dut.busy, dut.data_i, dut.ack_i, dut.ack_o, dut.data_o, *strobes)
+    b.watch(h.scl, h.sda, h.m_scl, h.m_sda, h.tgt_scl, h.tgt_sda, dut.busy, dut.data_i, dut.ack_i, dut.ack_o, dut.data_o, *strobes,
+            *h.s, *h.w)
 
     OP_BOUND = 14 * (period + 10) + 60
     MIN_HIGH = max(2, q)
@@ -225,6 +236,10 @@ def run_case(rng, tier, res):
         if k == "start":
             if op["starts"] != 1 or op["stops"] != 0:
                 mech = "busy_low_before_start_condition" if op["starts"] == 0 and op["stops"] == 0 else "start_op_wrong_bus_conditions"
+                if mech == "busy_low_before_start_condition" and op["zero_gap_after"] == "start" and op["m_sda_acc"] == 0 and op["scl_edges"] == 0:
+                    # accepted in the very first cycle busy was low after a START, SDA still driven low by the initiator,
+                    # and the initiator did not move SCL at all
+                    mech = "repeated_start_lost_when_strobed_in_first_idle_cycle_after_start"
                 res.violation(mech, "%s START seen=%d STOP seen=%d" % (ctx, op["starts"], op["stops"]))
         elif k == "stop":
             if op["stops"] != 1 or op["starts"] != 0:
@@ -309,6 +324,7 @@ def run_case(rng, tier, res):
         sv = [g(s) for s in strobes]
         op = st["op"]
         prev = st["prev"]
+        just_finished = None
 
         # ---- bus events of this cycle
         if prev is not None:
@@ -348,6 +364,8 @@ def run_case(rng, tier, res):
                 if op is not None:
                     op["stops"] += 1
                 st["bus_free"] = True
+            if op is not None and m_scl != pm_scl:
+                op["scl_edges"] += 1
             if rising:
                 res.event("scl_rising_edges")
                 st["rise_cyc"] = cyc
@@ -375,6 +393,7 @@ def run_case(rng, tier, res):
         # ---- completion: busy sampled low with an operation open
         if op is not None and not busy:
             finish(op, cyc, "busy_low")
+            just_finished = op["kind"]
             op = st["op"] = None
             st["idle_ref"] = (m_scl, m_sda)
         elif op is not None and cyc - op["t_acc"] > OP_BOUND + 2 * sum(op["stretch"]):
@@ -396,7 +415,7 @@ def run_case(rng, tier, res):
                 o = ops[i]
                 new = dict(o)
                 new.update({"i": i, "t_acc": cyc, "rises": 0, "bits": [], "m_sda_at": [], "starts": 0, "stops": 0, "sda_moves": 0,
-                            "falls": 0, "bad": False, "stretched": False, "stretched_data": False, "late": False})
+                            "falls": 0, "zero_gap_after": just_finished, "m_sda_acc": m_sda, "scl_edges": 0, "bad": False, "stretched": False, "stretched_data": False, "late": False})
                 kind = ["start", "stop", "write", "read"][sv.index(1)]
                 assert kind == o["kind"]
                 if kind == "write":
@@ -466,14 +485,15 @@ def run_case(rng, tier, res):
         st["actions"][at] = want
 
     # ------------------------------------------------------------------------------ driver
-    sig_of = {"start": dut.start, "stop": dut.stop, "write": dut.write, "read": dut.read}
+    sig_of = dict(zip(["start", "stop", "write", "read"], h.s))
+    want_of = dict(zip(["start", "stop", "write", "read"], h.w))
 
     def spurious_burst():
         x = rng.random()
         if x < 0.5:
-            pick = [rng.choice(strobes)]
+            pick = [rng.choice(h.s)]
         else:
-            pick = [s for s in strobes if rng.random() < 0.5] or [dut.write]
+            pick = [s for s in h.s if rng.random() < 0.5] or [h.s[2]]
         for s in pick:
             b.set(s, 1)
         b.set(dut.data_i, rng.getrandbits(8))
@@ -481,12 +501,37 @@ def run_case(rng, tier, res):
         return pick
 
     def driver():
-        for s in strobes:
+        for s in h.s + h.w:
             b.set(s, 0)
         yield
         for i, o in enumerate(ops):
             attempts = 0
-            while True:
+            if o["comb"] and st["op"] is not None and st["op"]["i"] == i - 1:
+                # a user whose strobe is `want & ~busy`: the request is raised while the previous operation is still
+                # running and is taken in the first cycle busy is low
+                res.bin("strobe_first_cycle_busy_low")
+                prev_kind = st["op"]["kind"]
+                st["strobed"] = i
+                b.set(want_of[o["kind"]], 1)
+                if o["kind"] == "write":
+                    b.set(dut.data_i, o["data"])
+                if o["kind"] == "read":
+                    b.set(dut.ack_i, o["ack"])
+                waited = 0
+                while not (st["op"] is not None and st["op"]["i"] == i):
+                    waited += 1
+                    if waited > OP_BOUND + 2 * 11 * 150 + 100:
+                        b.set(want_of[o["kind"]], 0)
+                        res.violation("request_never_accepted", "op#%d %s after %s cyc=%d" % (i, o["kind"], prev_kind, b.cycle))
+                        return
+                    yield
+                b.set(want_of[o["kind"]], 0)
+                res.bin("zero_gap_%s_after_%s" % (o["kind"], prev_kind))
+                if o["scramble"]:
+                    b.set(dut.data_i, rng.getrandbits(8))
+                    b.set(dut.ack_i, rng.randint(0, 1) if o["kind"] != "read" else 1 - o["ack"])
+                attempts = -1
+            while attempts >= 0:
                 waited = 0
                 while b.get(dut.busy) or st["op"] is not None:
                     waited += 1
